@@ -18,7 +18,9 @@ Local Open Scope N_scope.
 
 Record olane := { o_read : list N; o_sent : list (N * N); o_bad : N }.
 Record ilane := { i_arr : list N; i_wr : list N; i_bad : N }.
-Record trace := { t_out : list olane; t_in : list ilane; t_quiet : bool }.
+(* t_outp / t_inp: lanes of a peer that was REMOVED during the run: its packets may be discarded from
+   some point on, so only "prefix, increasing, nothing unprocessed" is required of them *)
+Record trace := { t_out : list olane; t_in : list ilane; t_quiet : bool; t_outp : list olane; t_inp : list ilane }.
 
 Fixpoint eql (a b : list N) : bool :=
   match a, b with
@@ -50,4 +52,5 @@ Definition ilane_ok (q : bool) (l : ilane) : bool :=
   same q (i_wr l) (i_arr l) && (i_bad l =? 0).
 
 Definition holdsb (t : trace) : bool :=
-  forallb (olane_ok (t_quiet t)) (t_out t) && forallb (ilane_ok (t_quiet t)) (t_in t).
+  forallb (olane_ok (t_quiet t)) (t_out t) && forallb (ilane_ok (t_quiet t)) (t_in t) &&
+  forallb (olane_ok false) (t_outp t) && forallb (ilane_ok false) (t_inp t).
